@@ -34,6 +34,14 @@
 #define omp_get_max_threads() 1
 #endif
 
+#ifdef PGM_INDEX_VERIF
+struct pgm_verif_access;
+namespace pgm::internal {
+/// Verification hook: when > 1, make_segmentation_par runs its chunked path with this many chunks for any n.
+inline int pgm_verif_parallelism = 0;
+}
+#endif
+
 namespace pgm::internal {
 
 template<typename T>
@@ -43,6 +51,9 @@ using LargeSigned = typename std::conditional_t<std::is_floating_point_v<T>,
 
 template<typename X, typename Y>
 class OptimalPiecewiseLinearModel {
+#ifdef PGM_INDEX_VERIF
+    friend struct ::pgm_verif_access;
+#endif
 private:
     using SX = LargeSigned<X>;
     using SY = LargeSigned<Y>;
@@ -327,11 +338,22 @@ size_t make_segmentation(size_t n, size_t epsilon, Fin in, Fout out) {
 template<typename Fin, typename Fout>
 size_t make_segmentation_par(size_t n, size_t epsilon, Fin in, Fout out) {
     auto parallelism = std::min(std::min(omp_get_num_procs(), omp_get_max_threads()), 20);
+#ifdef PGM_INDEX_VERIF
+    if (pgm_verif_parallelism > 1)
+        parallelism = pgm_verif_parallelism;
+#endif
     auto chunk_size = n / parallelism;
     auto c = 0ull;
 
+#ifdef PGM_INDEX_VERIF
+    if (pgm_verif_parallelism > 1)
+        goto pgm_verif_chunked;
+#endif
     if (parallelism == 1 || n < 1ull << 15)
         return make_segmentation(n, epsilon, in, out);
+#ifdef PGM_INDEX_VERIF
+    pgm_verif_chunked:
+#endif
 
     using K = typename std::invoke_result_t<Fin, size_t>;
     using canonical_segment = typename OptimalPiecewiseLinearModel<K, size_t>::CanonicalSegment;
